@@ -27,6 +27,25 @@ import (
 //verif:stub snapfs (*os.File).Read vFileRead
 //verif:stub snapfs io.CopyN vCopyN
 //verif:stub snapfs path/filepath.Join vJoin
+//verif:stub snapfs (*raft.snapshots).meta vSnapsMeta
+
+// vSnapsMeta is (*snapshots).meta with the evaluation order the gc compiler gives `return meta, meta.decode(f)`:
+// the call first, then the (decoded) variable. The order of a variable read relative to a call is unspecified by the
+// language; go/ssa loads the variable first, which would return the zero label. This is the one place in the
+// repository that depends on it (found by the translator validation of the install-snapshot path).
+func vSnapsMeta(s *snapshots) (snapshotMeta, error) {
+	if s.index == 0 {
+		return snapshotMeta{index: 0, term: 0}, nil
+	}
+	f, err := os.Open(metaFile(s.dir, s.index))
+	if err != nil {
+		return snapshotMeta{}, err
+	}
+	defer f.Close()
+	meta := snapshotMeta{}
+	err = meta.decode(f)
+	return meta, err
+}
 
 type vSFile struct {
 	name    string
@@ -129,7 +148,7 @@ func vOSOpenFile(name string, flag int, perm os.FileMode) (*os.File, error) {
 func vOSOpen(name string) (*os.File, error) {
 	g := vSLookup(name)
 	if g == nil {
-		return nil, os.ErrNotExist
+		return nil, vIOError{"no such file"}
 	}
 	h := &os.File{}
 	vOSFiles[h] = g
@@ -148,7 +167,7 @@ func (i vFileInfo) Sys() interface{}   { return nil }
 func vOSStat(name string) (os.FileInfo, error) {
 	g := vSLookup(name)
 	if g == nil {
-		return nil, os.ErrNotExist
+		return nil, vIOError{"no such file"}
 	}
 	if g.kind == 2 {
 		return vFileInfo{g.size}, nil
@@ -159,7 +178,7 @@ func vOSStat(name string) (os.FileInfo, error) {
 func vOSRemove(name string) error {
 	g := vSLookup(name)
 	if g == nil {
-		return os.ErrNotExist
+		return vIOError{"no such file"}
 	}
 	vCrashPoint("snap.remove.before")
 	g.exists = false
@@ -170,7 +189,7 @@ func vOSRemove(name string) error {
 func vSRename(oldpath, newpath string) error {
 	g := vSLookup(oldpath)
 	if g == nil {
-		return os.ErrNotExist
+		return vIOError{"no such file"}
 	}
 	vCrashPoint("snap.rename.before")
 	if old := vSLookup(newpath); old != nil {
